@@ -114,7 +114,8 @@ def judge(ctx, case, truth, res, model):
                         case, res, "op %d %r: expected %r, got %r" % (i, op, ro[:2], qo[:2])))
                     return
                 continue
-            falsy = any(not S.is_truthy(code) for code in (truth.get(qc) or ["T"]))  # falsy at some evaluation
+            t_op = {int(k): v for k, v in op["truth"].items()} if op.get("truth") else truth  # an op may carry its own table
+            falsy = any(not S.is_truthy(code) for code in (t_op.get(qc) or ["T"]))  # falsy at some evaluation
             if roles.get(rc) != roles.get(qc) or not falsy:
                 ctx.fail("%sverdict-role|%s|%s|ref:%s|real:%s" % (pre, op["op"], sig, roles.get(rc), roles.get(qc)), case,
                          D.describe(case, res, "op %d %r: expected the error of a falsy %s (e.g. #%s), got #%s (%s, %s)" % (
@@ -258,6 +259,15 @@ def run(ctx, tier, seed, shard, nshards):
         for case in gap_matrix():
             D.run_one(ctx, case, judge, exclude=exclude, nontrivial=nontrivial)
         ctx.count("gap_matrix_cells", 7 * 12)
+        # an instance of a sub-class satisfies the invariants of ALL its ancestors: C03's enumeration of invariant
+        # orders (call / attribute-set / both, one or two bases, a sub-class without own invariants adding members)
+        from vf.props import c03
+
+        n = 0
+        for case in c03.invariant_order_matrix():
+            D.run_one(ctx, case, judge, exclude=exclude, nontrivial=lambda *a: True)
+            n += 1
+        ctx.count("invariant_order_matrix_cells", n)
 
 
 def structural(ctx):
